@@ -277,7 +277,7 @@ theorem doRm_unlink_tail {s : St} (hc : Consistent s) (pp : Path) (n : Name) {pm
       rw [bind_ok (pure_eval () s)]
       have hcp := copyNodeUp_spec pp s hc
       cases hres : copyNodeUp pp s with
-      | err e s' => rw [hres] at hcp; rw [bind_err hres]; exact hcp
+      | err e s' => rw [hres] at hcp; rw [bind_err hres]; exact hcp.1
       | ok u s2 =>
         rw [hres] at hcp
         rw [bind_ok hres]
